@@ -68,6 +68,24 @@ class World:
         return o
 
     def step(self, op):
+        """one request; with op["fault"] = k the k-th storage callback of the request raises (C19)"""
+        st = self.store
+        st.trace, st.events = [], []
+        st.fail_at = op.get("fault")
+        try:
+            o = self._step(op)
+        finally:
+            st.fail_at = None
+        if op.get("fault") is not None:
+            if str(o.get("raised", "")).startswith("Fault"):
+                return {"fault": True, "done": list(st.events), "store": self.snapshot()}
+            if len(st.trace) <= op["fault"] and "raised" not in o:
+                o = dict(o, nofault=True)       # the request made fewer callbacks than the fault index: it ran fault-free
+            else:
+                o = dict(o, swallowed=True, done=list(st.events), store=self.snapshot())   # a callback failed and the request still answered
+        return o
+
+    def _step(self, op):
         srv, store = self.srv, self.store
         k = op["op"]
         try:
@@ -82,6 +100,12 @@ class World:
                     q = dict(parse_qsl(urlparse(loc).query))
                     return self.out(302, {"error": q.get("error")}, code=self.num(q.get("code"), "code"))
                 return self.out(r.status, r.body if isinstance(r.body, dict) else {})
+            if k == "implicit":      # C19 only: traced and checked by the oracle, not part of the Lean state machine
+                form = {"response_type": "token", "client_id": op["client"], "redirect_uri": op["redirect"], "scope": op["scope"]}
+                r = srv.create_authorization_response(Req("POST", "https://as.example/authorize", form), grant_user=store.users[op["user"]])
+                loc = dict(r.headers).get("Location") or ""
+                q = dict(parse_qsl(urlparse(loc).fragment))
+                return self.out(r.status, {"error": q.get("error"), **({"access_token": q["access_token"], "scope": q.get("scope")} if "access_token" in q else {})})
             if k == "advance":
                 CLOCK.now += op["dt"]; return self.out(200)
             if k == "user_decide":
@@ -143,7 +167,7 @@ class World:
                 "devices": sorted([self.num(d.device_code, "dc"), d.client_id or ""] for d in st.devices)}
 
 
-def gen_history(rng, length, flavor, pkce_required=False, supported=None, strict_hint=False):
+def gen_history(rng, length, flavor, pkce_required=False, supported=None, strict_hint=False, fault_p=0.0):
     """random walk; references are drawn from what the real provider handed out so far (mostly valid), plus stale / foreign / unknown ones"""
     w = World(pkce_required, supported, strict_hint)
     ops, outs = [], []
@@ -208,6 +232,14 @@ def gen_history(rng, length, flavor, pkce_required=False, supported=None, strict
             op = {"op": k, "token": (t[0] if t else rng.choice([None, "at999", "rt1", "zzz"])), "required": rng.choice([None, None, ["a"], ["a b"], ["z"], ["c", "a"], []])}
         else:
             op = {"op": "advance", "dt": rng.choice([1, 3, 10, 299, 301, 1700, 1801, 3601, 900000])}
+        if fault_p and op["op"] not in ("advance", "user_decide") and rng.random() < fault_p:
+            # C19: the same request first hits a storage fault at its k-th callback (possibly twice), then is repeated fault-free
+            for _ in range(rng.choice([1, 1, 2])):
+                fop = dict(op, fault=rng.choice([0, 1, 1, 2, 2, 3, 3, 4, 5]))
+                fo = w.step(fop)
+                if fo.get("fault"):
+                    fop["done"] = fo["done"]
+                ops.append(fop); outs.append(fo)
         o = w.step(op)
         ops.append(op); outs.append(o)
         if "raised" in o:
